@@ -130,9 +130,6 @@ def analyse(f, frontend, verb):
         abort(f'{what}: command is {consts}, expected rib/{verb}')
     if not any(k.arg == 'name' for k in mcall.keywords):
         abort(f'{what}: the prefix is not passed as name=')
-    life = [k.value.value for k in ecall.keywords if k.arg == 'lifetime' and isinstance(k.value, ast.Constant)]
-    if life != [1000]:
-        abort(f'{what}: lifetime is {life}')
     # -- timestamp selection -----------------------------------------------------------------------
     loops = find(fn, lambda n: isinstance(n, ast.For) and call_name(n.iter) == 'range')
     maxes = find(fn, lambda n: isinstance(n, ast.Assign) and len(n.targets) == 1 and is_self_attr(n.targets[0], LAST)
